@@ -52,6 +52,9 @@ SCENARIOS = {
     'kill-while-paused': {'program': MAIN, 'schedule': [['tick', 1], ['pause', 'pm'], ['tick', 2], ['kill', 'k']]},
     'kill-while-paused-created': {'program': ASYNC, 'schedule': [['pause', 'p0'], ['tick', 1], ['kill', 'k']]},
     'callback-while-paused': {'program': {'steps': [S([['soon', 'ok', 'c1'], ['call', 'pause', 'sp']], ['continue', 1, [], {}]), S([['out', 'x', 1]], ['value', 2])]}, 'schedule': [['tick', 3], ['play']]},
+    # callbacks scheduled from outside before the first step / while paused in CREATED
+    'callback-before-first-step': {'program': MAIN, 'schedule': [['ext_soon', 'ok', 'e1'], ['tick', 2], ['ext_soon', 'ok', 'e2']]},
+    'callback-while-paused-created': {'program': ASYNC, 'schedule': [['pause', 'p0'], ['ext_soon', 'ok', 'e1'], ['tick', 2], ['play']]},
     # a registered cleanup raises when the process is closed (that is logged, it is not the injected fault)
     'plain-cleanup-raises': {'program': MAIN, 'schedule': [], 'cleanup_raises': 1},
     'async-pause-kill-cleanup-raises': {'program': ASYNC, 'schedule': [['tick', 1], ['pause', 'pm'], ['tick', 3], ['play'], ['tick', 1], ['kill', 'k']], 'cleanup_raises': 0},
@@ -164,7 +167,8 @@ def execute(case):
     with Exec(run_case) as ex:
         w = ex.world
         if 'listener' in fault:
-            w.listener_fault = {'on': fault['listener'], 'occ': fault['occ']}
+            # (every other listener fault is one whose text cannot be rendered)
+            w.listener_fault = {'on': fault['listener'], 'occ': fault['occ'], 'unprintable': fault['occ'] % 2 == 0 or fault['listener'] in ('on_process_paused', 'on_process_finished')}
             klass = 'listener'
         else:
             w.fault = {'hook': fault['hook'], 'occ': fault['occ'], 'pos': fault['pos']}
